@@ -138,6 +138,28 @@ fn shape_n<const N: usize>(sc: &Value, r: &mut Rep) {
     r.ints("group_slice_elements", catch(|| flat(group_slice_elements::<u32, N>(&src))), &flat(&grouped));
     r.ints("flatten_slice_elements", catch(|| flatten_slice_elements(&grouped).to_vec()), &src);
     r.ints("flatten_vector_elements", catch(|| flatten_vector_elements(grouped.clone())), &src);
+    // the same elements in a vector with unused capacity (pushed / reserved / truncated vectors)
+    let spare = sc["spare"].as_u64().unwrap_or(1) as usize;
+    let roomy = || {
+        let mut v: Vec<[u32; N]> = Vec::with_capacity(grouped.len() + spare);
+        v.extend_from_slice(&grouped);
+        v
+    };
+    r.ints("flatten_vector_elements", catch(|| {
+        let out = flatten_vector_elements(roomy());
+        // only the announced length is compared element-wise; a wrong length is reported as such
+        if out.len() != src.len() { vec![out.len() as u32] } else { out }
+    }), &src);
+    let truncated = || {
+        let mut v = grouped.clone();
+        v.extend_from_slice(&grouped);
+        v.truncate(grouped.len());
+        v
+    };
+    r.ints("flatten_vector_elements", catch(|| {
+        let out = flatten_vector_elements(truncated());
+        if out.len() != src.len() { vec![out.len() as u32] } else { out }
+    }), &src);
     r.ints("transpose_slice", catch(|| flat(&transpose_slice::<u32, N>(&src))), &flat(&transposed));
 }
 
